@@ -26,6 +26,9 @@ type c03fReq struct {
 	BodyLen int    `json:"bodyLen,omitempty"`
 	Fault   string `json:"fault,omitempty"` // "", reset, abort, 500, slow-reset
 	Key     int    `json:"key"`
+	// Forbid: the origin's answer carries this (with max-age=60) and must never be stored, although
+	// the location adds a response header "Cache-Control: public, max-age=300" of its own
+	Forbid string `json:"forbid,omitempty"` // "", private, no-store, no-cache, set-cookie
 }
 
 type c03fScenario struct {
@@ -52,6 +55,9 @@ func genC03Forward(t *rapid.T) c03fScenario {
 		}
 		if r.Method != "GET" && r.Method != "HEAD" {
 			r.BodyLen = rapid.SampledFrom([]int{0, 0, 0, 1, 300, 70000}).Draw(t, "bodyLen")
+		} else if rapid.IntRange(0, 2).Draw(t, "forbidP") == 0 {
+			r.Fault = ""
+			r.Forbid = rapid.SampledFrom([]string{"private", "no-store", "no-cache", "set-cookie", "Private"}).Draw(t, "forbid")
 		}
 		sc.Reqs = append(sc.Reqs, r)
 	}
@@ -70,8 +76,9 @@ func execC03Forward(sc c03fScenario) *vstat.Outcome {
 	cfg := &config.PikeConfig{
 		Caches:    []config.CacheConfig{{Name: cacheName, Size: 100, HitForPass: "5m"}},
 		Upstreams: []config.UpstreamConfig{{Name: "c03fup", Servers: []config.UpstreamServerConfig{{Addr: c03fUp.URL()}}}},
-		Locations: []config.LocationConfig{{Name: "c03floc", Upstream: "c03fup"}},
-		Servers:   []config.ServerConfig{{Addr: c03fAddr, Locations: []string{"c03floc"}, Cache: cacheName}},
+		Locations: []config.LocationConfig{{Name: "c03floc", Upstream: "c03fup"},
+			{Name: "c03fcc", Upstream: "c03fup", Prefixes: []string{"/cc/"}, RespHeaders: []string{"Cache-Control:public, max-age=300", "X-Loc:cc"}}},
+		Servers: []config.ServerConfig{{Addr: c03fAddr, Locations: []string{"c03floc", "c03fcc"}, Cache: cacheName}},
 	}
 	if err := applyConfig(cfg); err != nil {
 		out.Inconclusive = true
@@ -87,6 +94,10 @@ func execC03Forward(sc c03fScenario) *vstat.Outcome {
 		"abort":      {Status: 200, Headers: hdr, Body: body, Abort: true},
 		"500":        {Status: 500, Headers: hdr, Body: []byte("upstream failure")},
 	}
+	for _, f := range []string{"private", "no-store", "no-cache", "Private"} {
+		specs["forbid-"+f] = &respSpec{Status: 200, Headers: [][2]string{{"Content-Type", "text/plain"}, {"Cache-Control", f + ", max-age=60"}}, Body: body}
+	}
+	specs["forbid-set-cookie"] = &respSpec{Status: 200, Headers: [][2]string{{"Content-Type", "text/plain"}, {"Cache-Control", "max-age=60"}, {"Set-Cookie", "sid=1"}}, Body: body}
 	ids := map[string]string{}
 	for f, sp := range specs {
 		id := fmt.Sprintf("c03f-%d-%s", n, f)
@@ -101,20 +112,31 @@ func execC03Forward(sc c03fScenario) *vstat.Outcome {
 		c03fUp.logs = nil
 		c03fUp.mu.Unlock()
 	}()
-	faulted, bodiless := 0, 0
+	faulted, bodiless, forbidden := 0, 0, 0
 	for i, r := range sc.Reqs {
 		var reqBody []byte
 		if r.BodyLen > 0 {
 			reqBody = genBytes(r.BodyLen, "random", uint32(i+n))
 		}
 		uri := fmt.Sprintf("/c03f/%d/k%d", n, r.Key)
-		resp := do(c03fCl, reqSpec{Method: r.Method, Addr: addr, Host: "c03f.test", URI: uri, Header: http.Header{"X-Spec": []string{ids[r.Fault]}}, Body: reqBody})
+		specID := ids[r.Fault]
+		if r.Forbid != "" {
+			uri = fmt.Sprintf("/cc/%d/%s/k%d", n, r.Forbid, r.Key)
+			specID = ids["forbid-"+r.Forbid]
+		}
+		resp := do(c03fCl, reqSpec{Method: r.Method, Addr: addr, Host: "c03f.test", URI: uri, Header: http.Header{"X-Spec": []string{specID}}, Body: reqBody})
 		what := fmt.Sprintf("request %d (%s %s, %d-byte body, upstream fault %q)", i, r.Method, uri, r.BodyLen, r.Fault)
 		if resp.ReqID == "" {
 			out.Violate("C03", "harness", "%s: no request id", what)
 			continue
 		}
 		logs := c03fUp.logsFor(func(l *upLog) bool { return l.ReqID == resp.ReqID })
+		if r.Forbid != "" {
+			forbidden++
+			if resp.Err == "" && (resp.Header.Get("X-Status") == "hit" || len(logs) == 0) {
+				out.Violate("C03", "stored-although-forbidden", "%s: the origin answers %q for this URL (the location adds its own Cache-Control: public response header), yet the request was answered from cache (X-Status %q, %d upstream contacts)", what, r.Forbid, resp.Header.Get("X-Status"), len(logs))
+			}
+		}
 		pass := r.Method != "GET" && r.Method != "HEAD"
 		if pass {
 			// Go's transport never replays these methods; pike must not either. (Not at all is
@@ -150,7 +172,10 @@ func execC03Forward(sc c03fScenario) *vstat.Outcome {
 			out.Violate("C03", "answered-without-origin-answer", "%s: the origin never answered this request but the client got status %d (X-Status %q)", what, resp.Code, resp.Header.Get("X-Status"))
 		}
 	}
-	out.NonTrivial = faulted > 0
+	out.NonTrivial = faulted > 0 || forbidden > 1
+	if forbidden > 1 {
+		out.Class("forbidden_answer_with_location_cache_control")
+	}
 	if bodiless > 0 {
 		out.Class("bodiless_pass_request_with_origin_fault")
 	}
